@@ -83,7 +83,9 @@ def gen_project(rng, max_files=5, max_pats=4, shared_lines=True, mixed_endings=T
     tree = refimpl.tokenize(vpat)
     templates = [t for t in RAW_TEMPLATES if "{pep440_version}" not in t or
                  (pep_shaped(vpat) and pep440_text(refimpl.render(tree, old)) and pep440_text(refimpl.render(tree, new))
-                  and old["tag"] not in ("dev", "post") and new["tag"] not in ("dev", "post"))]
+                  and old["tag"] not in ("dev", "post") and new["tag"] not in ("dev", "post")
+                  # BUILD becomes BLD ([1-9][0-9]*) in the derived pattern: a build id of value 0 has no PEP 440 spelling there
+                  and not (("BUILD" in vpat or "BLD" in vpat) and (int(old["bid"]) == 0 or int(new["bid"]) == 0)))]
     # partial calendar patterns only make sense if the version pattern is a calendar pattern
     if "YYYY" not in vpat:
         templates = [t for t in templates if "YYYY" not in t]
